@@ -252,6 +252,11 @@ def _permuted_items(stream, items, op):
         LOG.append(dict(stream=stream.label, op=op, k=None, N=n, n=n, distinct=True, pos=list(range(n))))
         return list(items)
     ps, ts = _positions(stream, n, n, True, op)
+    # n distinct positions in [0, n) are onto (pigeonhole): stated explicitly, it is implied by the
+    # constraints above and spares the solver from re-deriving it
+    e = engine()
+    for v in range(n):
+        e.assume(SB(z3.Or([t == v for t in ts])))
     return [_select_any(t, q, items) for t, q in zip(ts, ps)]
 
 
